@@ -163,10 +163,29 @@ def r4(ctx):
     sends = pushes + emit
     if not sends:
         ctx.bad(R, "send:mtu-guard", b.span, "no packet emission found in the UDP send path")
+    def _guards(fb):
+        fe_, te_ = [], []
+        for sbb, te, fe, o in guards_on(fb, lambda o: o["k"] == "bin" and o["op"] in ("Gt",)):
+            a1 = Slicer(ctx.w).atoms(fb, o["b"])
+            if "call:turmoil_net::kernel::udp::max_payload" in a1:
+                fe_ += fe
+                te_ += te
+        return fe_, te_
     for bb, t in sends:
         ok = bool(fe_all) and b.dominated_by_any(bb, edges=fe_all)
-        ctx.inst(R, "send:mtu-guard", ok, t["s"], "datagram queued only when it fits the MTU" if ok else
-                 "a datagram can be queued without the `len > max_payload` test: oversized payloads are sent instead of rejected")
+        if not ok:
+            # accepted alternative: every in-repo caller performs the test before calling
+            callers = who_calls(ctx.w, b.id)
+            unguarded = []
+            for cb, cbb, ct in callers:
+                fe_c, _ = _guards(cb)
+                if not (fe_c and cb.dominated_by_any(cbb, edges=fe_c)):
+                    unguarded.append(cb.id)
+            ok = bool(callers) and not unguarded
+            ctx.inst(R, "send:mtu-guard", ok, t["s"], "datagram queued only when it fits the MTU (checked by every caller)" if ok else
+                     f"a datagram can be queued without the `len > max_payload` test (unchecked path through {sorted(set(unguarded)) or b.id}): oversized payloads are sent instead of rejected")
+            continue
+        ctx.inst(R, "send:mtu-guard", ok, t["s"], "datagram queued only when it fits the MTU")
     for e in te_all:
         r_ = b.reachable(e[1])
         ems = any((op_const(a) or {}).get("def", "").endswith("EMSGSIZE") or "EMSGSIZE" in str((op_const(a) or {}).get("k")) for x in r_ for _, t in [(x, b.term(x))] if t["k"] == "call" for a in t["args"])
@@ -176,7 +195,7 @@ def r4(ctx):
     if mp:
         subs = list(mp.calls(re.compile(r"saturating_sub$")))
         ctx.inst(R, "max_payload:headers", len(subs) == 2, mp.span, "IP and UDP header sizes are subtracted from the MTU" if len(subs) == 2 else f"{len(subs)} header subtraction(s) instead of 2")
-    ctx.floor(R, 3)
+    ctx.floor(R, 2)
 
 
 def r5(ctx):
@@ -222,7 +241,40 @@ def r5(ctx):
     ctx.floor(R, 8)
 
 
+def r6(ctx):
+    R = "C16-R6"
+    ctx.rule(R, "every transition of a TCB into Established records the window the peer advertised in the segment that completed the "
+                "handshake (Tcb::snd_wnd := TcpSegment::window on every path from the state write); every ACK processed on an open "
+                "connection refreshes it")
+    n = 0
+    for b in sorted(ctx.w.bodies.values(), key=lambda b: b.id):
+        if b.crate != "turmoil_net" or not b.id.startswith("turmoil_net::kernel::tcp::"):
+            continue
+        est = []
+        for bb, i, s in b.all_stmts():
+            if place_last_field(s["p"]) == T + "state":
+                r = s["r"]
+                v = r.get("variant") if r["k"] == "agg" else None
+                if v is None and r["k"] == "use":
+                    o = origin(b, r["o"])
+                    v = o["r"].get("variant") if o["k"] == "agg" else None
+                if v == "Established":
+                    est.append((bb, s))
+        if not est:
+            continue
+        ww = [bb for bb, i, s in b.all_stmts() if place_last_field(s["p"]) == T + "snd_wnd" and
+              "field:turmoil_net::kernel::packet::TcpSegment::window" in Slicer(ctx.w).atoms(b, s["r"].get("o", {}))]
+        for bb, s in est:
+            n += 1
+            ok = bb in ww or (bool(ww) and not always_passes(b, ww, frm=bb))
+            ctx.inst(R, f"{b.id}:established#{n}", ok, s["s"], "peer window recorded when the connection becomes Established" if ok else
+                     "a connection becomes Established without taking the peer's advertised window from the completing segment: the sender keeps the handshake's "
+                     "65535 and can put more bytes in flight than the peer advertised")
+    ctx.floor(R, 2)
+
+
 def run(ctx):
+    r6(ctx)
     r1(ctx)
     r2(ctx)
     r3(ctx)
